@@ -4203,6 +4203,33 @@ def t_shift_assign_wide(facts, res, tier):
                 missing = sets["AbsoluteX"] - sets["Absolute"]
                 if missing:
                     res.fail(key, facts.where(fn, a["body"]), "generate_expr (shift assignment): an element reached through X is shifted on 16 bits for %s, the same element at a constant subscript is not (the fixed-offset test names %s): only its low byte is shifted" % (sorted(missing), sorted(sets["Absolute"])))
+            # round 20: what is not shifted in place falls into the 8-bit path (generate_shift + generate_assign), which writes one byte.
+            # Before that path a refusal names every 16-bit destination: Absolute with the types of the in-place test, AbsoluteX and its
+            # sibling AbsoluteY with the types of the indexed test
+            if "Absolute" in sets and "AbsoluteX" in sets:
+                key2 = "T-SHIFT-ASSIGN-WIDE:generate_expr:narrow-path"
+                refused = {}
+                for x in walk(a["body"]):
+                    if x.get("k") != "let" or x.get("pat", {}).get("k") != "ident" or x.get("init", {}).get("k") != "match":
+                        continue
+                    if "left" not in expr_text(x["init"]["e"]):
+                        continue
+                    name = x["pat"]["name"]
+                    guarded = any(y.get("k") == "if" and re.search(r"\b%s\b" % re.escape(name), expr_text(y["cond"])) and not expr_text(y["cond"]).startswith("!")
+                                  and any(z.get("k") == "return" or expr_text(z).startswith("return Err") for z in walk(y["then"])) for y in walk(a["body"]))
+                    if not guarded:
+                        continue
+                    for aa in x["init"]["arms"]:
+                        pt2 = pat_text(aa["pat"]).replace(" ", "")
+                        tys = set(re.findall(r"VariableType::(\w+)", expr_text(aa["body"])))
+                        for kd in re.findall(r"ExprType::(Absolute[XY]?)\(", pt2):
+                            refused.setdefault(kd, set()).update(tys)
+                res.inst(key2, True, {"refused": {k: sorted(v) for k, v in sorted(refused.items())}})
+                need = {"Absolute": sets["Absolute"], "AbsoluteX": sets["AbsoluteX"], "AbsoluteY": sets["AbsoluteX"]}
+                lacking = ["%s:%s" % (k, t) for k, ts in sorted(need.items()) for t in sorted(ts) if t not in refused.get(k, set())]
+                if lacking:
+                    res.fail(key2, facts.where(fn, a["body"]), "generate_expr (shift assignment): a 16-bit destination that is not shifted in place (a count of 8 or more, an element "
+                             "reached through Y or a memory index) reaches the 8-bit path, which writes its low byte only (`a >>= 9` is `LDA #0 / STA a`); not refused before it: %s" % ", ".join(lacking))
     if n == 0:
         raise AnchorMissing("generate_expr: the shift-assignment arm with its two width tests was not found")
 
